@@ -593,8 +593,8 @@ def check_engine(prop, tier, seed, repo, keep):
         gen_extra.update(san)
         if prop == 'C05':
             c = merged['counters']
-            if c.get('values-with-map>=2', 0) > 50 and c.get('values-where-plain-marshal-order-varied', 0) == 0:
-                print('BROKEN: check C05: non-deterministic marshalling never varied on %d values with maps of >=2 entries: map iteration randomness was not exercised' % c.get('values-with-map>=2', 0))
+            if c.get('values-with-map>=2', 0) > 50 and c.get('values-where-go-map-iteration-varied', 0) == 0:
+                print('BROKEN: check C05: Go map iteration order never varied on %d values with maps of >=2 entries: map iteration randomness was not exercised' % c.get('values-with-map>=2', 0))
                 return 2
         floors = FLOORS[prop]
         return finish(prop, tier, seed, t0, merged, RULES[prop], ASSUME, floors[0], floors[1], extra=gen_extra)
